@@ -141,12 +141,12 @@ NOT_YET = {}
 USAGE = {
     'C01': 'another file of a different machine opened meanwhile, pickle / deep copy of the object, BytesIO / minimal / mmap / real-file / gzip-wrapped / tar-member streams, enumerations consumed step by step, a name look-up interrupted by a transient read error and repeated, header tables and sections beyond 2^31 / 2^32 (sparse files), linked tables at section indices >= 0xff00, section names of 4 KiB to 70 000 bytes',
     'C02': 'partially consumed address_offsets generators, rejected payloads asked again on the same section object, placement beyond 2^31 / 2^32 / 2^62 (sparse files), MiB-sized maximally redundant compressed payloads, six stream kinds (incl. a gzip wrapper whose fileno() belongs to the compressed file and a tar member), decoding in a child interpreter under the C locale without UTF-8 mode, real (also compressed) sections tested against real segments, zlib streams of every window size',
-    'C03': 'results modified by the caller before the lookup is repeated, tables at section indices >= 0xff00, far tables and st_name >= 2^31 (sparse files), GNU hash bucket groups in permuted order, step-by-step walks, the first use of a fresh table object (abandoned walk / look-ups first / look-ups inside the first walk), padded symbol entries (sh_entsize > Elf_Sym), hash sections larger than their table, a look-up interrupted by a transient read error and repeated, six stream kinds, names on which the SysV hash carries out of bit 31 (constructed), a neighbouring symbol table (empty at the same offset, or of other symbols over the same string table) asked before or after the real one',
+    'C03': 'results modified by the caller before the lookup is repeated, tables at section indices >= 0xff00, far tables and st_name >= 2^31 (sparse files), GNU hash bucket groups in permuted order, step-by-step walks, the first use of a fresh table object (abandoned walk / look-ups first / look-ups inside the first walk), padded symbol entries (sh_entsize > Elf_Sym), hash sections larger than their table, a look-up interrupted by a transient read error and repeated, six stream kinds, names on which the SysV hash carries out of bit 31 (constructed), a neighbouring symbol table (empty at the same offset, or of other symbols over the same string table) asked before or after the real one, long names with multi-byte characters across read boundaries',
     'C04': 'ref_addr followed from .debug_types units into .debug_info, by-signature look-ups and entry walks interrupted by a transient read error and repeated, units of 16 MiB, 64-bit section offsets beyond 4 GiB (sparse streams), step-by-step walks with moved streams, minimal streams, children listed first on a fresh object (compile and type units), index forms behind DW_FORM_indirect, references followed on an object with a sparse unit cache (last unit fetched first)',
-    'C05': 'header_length covering bytes behind the tables, a decode interrupted by a transient read error and repeated, unit version drawn independently of the table version, supplementary object file attached, programs at .debug_line offsets beyond 2^32 (sparse streams)',
+    'C05': 'header_length covering bytes behind the tables, a decode interrupted by a transient read error and repeated, unit version drawn independently of the table version, supplementary object file attached, programs at .debug_line offsets beyond 2^32 (sparse streams), the same offsets designating different strings in .debug_str and .debug_line_str',
     'C06': 'augmentation data longer than the known fields, pc-relative pointers given by their encoded displacement (0 included), extended-length CIEs in .eh_frame, DW_EH_PE_omit as declared LSDA encoding, version-4 CIEs in .eh_frame',
     'C07': 'enumerations consumed step by step while other lists are fetched, unit address size different from the file pointer size, both section generations in one file (colliding offsets), every kind of v5 unit (type and split units included) as owner of list attributes, GNU Fission skeleton units (DW_AT_GNU_ranges_base / _addr_base on the top entry), list attributes behind DW_FORM_indirect',
-    'C08': 'table walks consumed step by step with other stream users in between, tables first met by a walk that is given up, padded symbol entries, ELFCLASS32 containers of x86-64 / MIPS RELA / LoongArch, the relocation switch followed through a .gnu_debuglink, symbols of every type but STT_FUNC',
+    'C08': 'table walks consumed step by step with other stream users in between, tables first met by a walk that is given up, padded symbol entries, ELFCLASS32 containers of x86-64 / MIPS RELA / LoongArch, the relocation switch followed through a .gnu_debuglink, symbols of every type but STT_FUNC, relocation targets stored SHF_COMPRESSED, dynamic tables on the first byte of a PT_LOAD that touches the previous one in memory only',
     'C09': 'deep-copied file objects, OS ABI drawn independently of the machine, step-by-step walks, GNU hash bucket groups in permuted order, the first use of a fresh view object (abandoned tag / symbol walk, look-ups first), GNU chains of 70..260 words, a look-up interrupted by a transient read error and repeated, by-name queries in drawn order with names borne by several symbols, strings of 4 KiB to 20 000 bytes',
     'C10': 'fixtures with a unit of unsupported version (failed queries inside the history) and with a duplicated type-unit signature, null-entry lookups, 14 kinds of suspended generators, histories on minimal streams, fixtures whose units of different version / offset size / address size share one abbreviation table, rejected calls (offsets inside entries or headers, unknown signatures, indices out of range) as operations of a history, the optional type argument of get_section and single dynamic entries by number as operations, the DWARF view of truth and history objects made only when first needed',
     'C11': 'stray .gnu_debuglink in unstripped containers, on-disk layouts reached through load_from_path via real path and directory symlink, supplementary links composed with compressed / .zdebug containers of the main and the supplementary file, rejected containers asked again on the same objects, zlib streams of every window size and strategy, a debug link leading to a file that carries the supplementary link',
@@ -155,10 +155,10 @@ USAGE = {
     'C14': 'step-by-step walks with other stream users in between, six stream kinds, alignment fields (sh_addralign / p_align) drawn independently of the 4-byte padding, AArch64 processor-specific properties of 8..24 bytes, non-zero padding bytes behind names and descriptors, named property numbers with data of other sizes than 4',
     'C15': 'several consumers of one section object at once (also as its first use), displacements >= 2^31 in a sparse file, entries sharing the head of an auxiliary chain, OS ABI and file type drawn, twin files with and without a .dynamic section, six stream kinds, padded entries in the symbol table a version section links to',
     'C16': 'string lengths around every power of two up to 128 KiB, declared block lengths at the sign / width boundaries of each prefix, LEB128 encodings padded to 21..1000 groups, NUL-terminated strings parsed with a text encoding (value, bytes consumed, following field), 64-bit initial lengths whose value looks like a 32-bit escape',
-    'C17': 'the whole enumeration repeated in a child interpreter under -O -bb and the C locale (what a code is called must not depend on the interpreter mode), tables compared with their import-time copies after files of every machine / OS ABI were read',
-    'C18': 'every ordered pair of location-changing CFA instructions, empty sections on segment edges, nested expressions with unit-referring operations in a first and a second unit, interpreter extents with bytes behind the terminator, dumps of sections that share a name, units of both DWARF formats in one file, several CIEs with FDEs in every relative position',
+    'C17': 'the whole enumeration repeated in a child interpreter under -O -bb and the C locale (what a code is called must not depend on the interpreter mode), tables compared with their import-time copies after files of every machine / OS ABI were read, processor-specific section types probed in every class / byte-order cell',
+    'C18': 'every ordered pair of location-changing CFA instructions, empty sections on segment edges, nested expressions with unit-referring operations in a first and a second unit, interpreter extents with bytes behind the terminator, dumps of sections that share a name, units of both DWARF formats in one file, several CIEs with FDEs in every relative position, two relocation sections over two symbol tables that number different symbols alike',
     'C19': 'extended-numbering escape triples, an allocation-peak bound (tracemalloc) for allocations that bypass the stream, the constructor on real files, memory maps, minimal, gzip-wrapped and tar-member streams, type-filtered enumerations and absent-name look-ups in the battery, header-0 counts (escapes on) in the allocation family, address space of every worker capped',
-    'C20': 'a companion file of the opposite byte order opened and queried while the first is in use, handler tables split over .ARM.extab and a second section of another name, a no-bits section overlapping the tables, drawn index-section names, ARM e_flags (BE8 / LE8 / float ABI) varying with the case',
+    'C20': 'a companion file of the opposite byte order opened and queried while the first is in use, handler tables split over .ARM.extab and a second section of another name, a no-bits section overlapping the tables, drawn index-section names, ARM e_flags (BE8 / LE8 / float ABI) varying with the case, attribute strings of 200 to 4 100 bytes with multi-byte characters across read boundaries',
 }
 
 
